@@ -12,6 +12,7 @@ import P2.Driver.Scope
 import P2.Driver.Heap
 import P2.Driver.Generic
 import P2.Driver.Iter
+import P2.Driver.Memo
 /-! Line-protocol driver of the model: one request per line on stdin, one response per line on stdout. -/
 open P2.Driver
 
@@ -33,6 +34,7 @@ def handle (line : String) : String :=
   | "RENDER" :: args => P2.Driver.C03.handleRender args
   | "GEN" :: args => handleGen args
   | "PIPE" :: args => handlePipe args
+  | "MEMO" :: args => handleMemo args
   | "PING" :: _ => "PONG"
   | _ => "BADREQ"
 
